@@ -301,4 +301,15 @@ void h_cholDec(void)
   Envelope_cholDec(&E, tol);
   GV_CANARY("h_cholDec end");
 }
+
+void h_element_const(void)
+{
+  struct Envelope E;
+  mk_envelope(&E);
+  Index i, j;
+  __CPROVER_assume(1 <= i && i <= E.dim_ && 1 <= j && j <= E.dim_);
+  __CPROVER_assume(WF_ROW(&E, GV_MAX(i, j)));
+  const Float *q = Envelope_element_const(&E, i, j);
+  GV_CANARY("h_element_const end");
+}
 //@ end
